@@ -84,6 +84,7 @@ def lane_asan(res, tier):
     hd = common.harness_dir()
     env = dict(common.ENV)
     env["CARGO_TARGET_DIR"] = os.path.join(hd, "target-asan")
+    common.invalidate_if_sources_changed(env["CARGO_TARGET_DIR"])
     env["RUSTFLAGS"] = "-Zsanitizer=address -Cforce-frame-pointers=yes"
     try:
         b = subprocess.run(["cargo", "+nightly", "build", "--offline", "--release", "--target", TRIPLE, "-p", "vh-mem"], cwd=hd, env=env, stdout=subprocess.PIPE, stderr=subprocess.STDOUT, timeout=3600)
@@ -132,6 +133,7 @@ def lane_miri(res, tier):
     hd = common.harness_dir()
     env = dict(common.ENV)
     env["CARGO_TARGET_DIR"] = os.path.join(hd, "target-miri")
+    common.invalidate_if_sources_changed(env["CARGO_TARGET_DIR"])
     env["MIRIFLAGS"] = "-Zmiri-disable-isolation"
     env["RUST_BACKTRACE"] = "0"
     base = ["cargo", "+nightly", "miri", "run", "--offline", "-q", "-p", "vh-mem", "--"]
